@@ -5,7 +5,7 @@ use acts::{Engine, EngineBuilder, Message};
 use std::collections::HashMap;
 use std::future::Future;
 use std::panic::{AssertUnwindSafe, Location, catch_unwind};
-use std::sync::atomic::{AtomicBool, AtomicI64, AtomicU64, Ordering};
+use std::sync::atomic::{AtomicBool, AtomicI64, AtomicU8, AtomicU64, Ordering};
 use std::sync::{Arc, Condvar, Mutex};
 use std::task::{Context, Poll, Waker};
 
@@ -63,6 +63,11 @@ pub enum Tr {
         kind: String,
         state: String,
         emit_message: bool,
+        uses: String,
+        key: String,
+        prev: Option<String>,
+        level: usize,
+        is_hook: bool,
         dump: Option<ProcDump>,
     },
     ProcEvent {
@@ -96,7 +101,8 @@ pub struct World {
     pub ids: AtomicU64,
     pub seq: AtomicU64,
     pub trace: Mutex<Vec<Tr>>,
-    pub want_dumps: AtomicBool,
+    /// dump policy of the trace (see `DUMP_*`)
+    pub want_dumps: AtomicU8,
     pub want_writes: AtomicBool,
     pub points: AtomicU64,
     /// classes of points that may preempt (T-mode); empty = all
@@ -110,6 +116,17 @@ thread_local! {
     pub static ME: std::cell::Cell<usize> = const { std::cell::Cell::new(0) };
 }
 
+/// no process dumps in the trace
+pub const DUMP_NONE: u8 = 0;
+/// structural dump at every task / process event
+pub const DUMP_LIGHT: u8 = 1;
+/// full dump at every task / process event
+pub const DUMP_FULL: u8 = 2;
+/// full dump when a task is reported in error (catch test), nothing else
+pub const DUMP_ON_ERROR: u8 = 3;
+/// structural dump when a task is reported completed and at process events
+pub const DUMP_ON_COMPLETED: u8 = 4;
+
 pub const T0_MICROS: i64 = 1_700_000_000_000_000;
 
 impl World {
@@ -121,7 +138,7 @@ impl World {
             ids: AtomicU64::new(0),
             seq: AtomicU64::new(0),
             trace: Mutex::new(vec![]),
-            want_dumps: AtomicBool::new(false),
+            want_dumps: AtomicU8::new(DUMP_NONE),
             want_writes: AtomicBool::new(true),
             points: AtomicU64::new(0),
             ctl: Mutex::new(Ctl {
@@ -232,7 +249,19 @@ impl verif::Hooks for World {
     }
 
     fn trace(&self, ev: &TraceEvent<'_>) {
-        let dumps = self.want_dumps.load(Ordering::Relaxed);
+        let policy = self.want_dumps.load(Ordering::Relaxed);
+        let task_dump = |state: &str, dump: &dyn Fn(bool) -> ProcDump| match policy {
+            DUMP_LIGHT => Some(dump(false)),
+            DUMP_FULL => Some(dump(true)),
+            DUMP_ON_ERROR if state == "error" => Some(dump(true)),
+            DUMP_ON_COMPLETED if state == "completed" => Some(dump(false)),
+            _ => None,
+        };
+        let proc_dump = |dump: &dyn Fn(bool) -> ProcDump| match policy {
+            DUMP_LIGHT | DUMP_ON_COMPLETED => Some(dump(false)),
+            DUMP_FULL => Some(dump(true)),
+            _ => None,
+        };
         let t = match ev {
             TraceEvent::StateWrite {
                 pid,
@@ -263,6 +292,11 @@ impl verif::Hooks for World {
                 kind,
                 state,
                 emit_message,
+                uses,
+                key,
+                prev,
+                level,
+                is_hook,
                 dump,
             } => Tr::TaskEvent {
                 pid: pid.to_string(),
@@ -271,12 +305,17 @@ impl verif::Hooks for World {
                 kind: kind.clone(),
                 state: state.clone(),
                 emit_message: *emit_message,
-                dump: if dumps { Some(dump()) } else { None },
+                uses: uses.clone(),
+                key: key.clone(),
+                prev: prev.clone(),
+                level: *level,
+                is_hook: *is_hook,
+                dump: task_dump(state, dump),
             },
             TraceEvent::ProcEvent { pid, state, dump } => Tr::ProcEvent {
                 pid: pid.to_string(),
                 state: state.clone(),
-                dump: if dumps { Some(dump()) } else { None },
+                dump: proc_dump(dump),
             },
             TraceEvent::Emit { channel, msg } => Tr::Emit {
                 channel,
@@ -691,6 +730,11 @@ impl Session {
 
     pub fn dump(&self, pid: &str) -> Option<ProcDump> {
         self.engine.verif().dump(pid)
+    }
+
+    /// structural view (no serialised data / hooks / env)
+    pub fn dump_light(&self, pid: &str) -> Option<ProcDump> {
+        self.engine.verif().dump_light(pid)
     }
 
     pub fn machinery_errors(&self) -> Vec<String> {
